@@ -57,6 +57,27 @@ def banned_tokens_gate(files=None):
         raise HarnessFault("banned declarations in the Coq development:\n" + "\n".join(bad[:20]))
 
 
+def dep_closure(pid, tie_imports):
+    """All Lib files plus Properties/<pid>.v and every Model/Lib file reachable from it and from the
+    tie imports through `Require Import` lines: the part of the development this check relies on."""
+    files = set(COQ.glob("Lib/*.v"))
+    todo = []
+    pf = COQ / "Properties" / f"{pid}.v"
+    if pf.exists():
+        files.add(pf); todo.append(pf.read_text())
+    todo.append(tie_imports)
+    pat = re.compile(r"From\s+(LunaModel|LunaLib|LunaProps)\s+Require\s+(?:Import|Export)\s+([^.]*)\.")
+    sub = {"LunaModel": "Model", "LunaLib": "Lib", "LunaProps": "Properties"}
+    while todo:
+        text = strip_coq_comments(todo.pop())
+        for lib, names in pat.findall(text):
+            for n in names.split():
+                f = COQ / sub[lib] / f"{n}.v"
+                if f.exists() and f not in files:
+                    files.add(f); todo.append(f.read_text())
+    return sorted(files)
+
+
 def print_assumptions(out):
     """Parse the output of `Print Assumptions` commands: list of reports."""
     reps = []
@@ -78,7 +99,7 @@ def run_check(prop, tier, seed, replay=None):
     assumptions = list(getattr(prop, "ASSUMPTIONS", []))
 
     # 1. static development (models, specs, parametric theorems)
-    banned_tokens_gate()
+    banned_tokens_gate(dep_closure(pid, getattr(prop, "TIE_IMPORTS", "")))
     built_ok, build_log = core.ensure_static_built()
     pfile = COQ / "Properties" / f"{pid}.v"
     static_thms = []
@@ -156,7 +177,7 @@ def run_check(prop, tier, seed, replay=None):
     if replay is not None:
         return do_replay(prop, targets, obs, replay, bdir, hdr)
     queries = []
-    robs = [o for o in obs if o.kind.startswith("R-")]
+    robs = [o for o in obs if o.kind.startswith("R-") or o.kind.startswith("A-")]
     for o in robs:
         queries += [(f"q_{o.name}_cex", f"{o.name}.ob_cex"), (f"q_{o.name}_left", f"{o.name}.ob_left"),
                     (f"q_{o.name}_states", f"{o.name}.ob_states")]
@@ -166,15 +187,15 @@ def run_check(prop, tier, seed, replay=None):
         cex = res[f"q_{o.name}_cex"]
         left = core.parse_nums(res[f"q_{o.name}_left"])
         states = core.parse_nums(res[f"q_{o.name}_states"])
-        entry = dict(name=o.name, kind=o.kind, target=o.target.name, describe=o.describe,
+        entry = dict(name=o.name, kind=o.kind, target=o.target.name if o.target else None, describe=o.describe,
                      product_states=states[0] if states else None)
         cov["obligation_list"].append(entry)
         if cex.startswith("Some"):
             path = core.parse_nums(cex)
-            payload = confirm_on_impl(prop, o, path, bdir, hdr)
+            payload = o.confirm(path, bdir, hdr) if o.confirm else confirm_on_impl(prop, o, path, bdir, hdr)
             raise Violation(payload)
         if left and left[0] != 0:
-            raise Violation(dict(property=pid, obligation=o.name, target=o.target.name,
+            raise Violation(dict(property=pid, obligation=o.name, target=o.target.name if o.target else None,
                                  reason="reachability exploration did not terminate within its fuel; "
                                         "theorem %s_T.tie no longer checks" % o.name), nofail=True)
 
